@@ -112,6 +112,12 @@ class SamplePdkWalker(h.HierarchyWalker):
 
     def mos_module(self, params: PrimMosParams) -> h.ExternalModule:
         """Retrieve or create an `ExternalModule` for a MOS of parameters `params`."""
+        if params.model is not None:
+            # Selected by model name: one of our four devices, or nothing
+            by_name = {m.name: m for m in (Nmos, Pmos, NmosModel, PmosModel)}
+            if params.model not in by_name:
+                raise RuntimeError(f"No Mos module for model name {params.model}")
+            return by_name[params.model]
         if params.tp == MosType.PMOS:
             return Pmos
         return Nmos
